@@ -27,6 +27,14 @@ fn features(cfg_rng: &mut Rng) -> Features {
     f
 }
 
+/// Normalised outcome plus, for errors, the first line of the message.
+fn with_msg(o: &crate::exec::Outcome) -> String {
+    match o {
+        crate::exec::Outcome::Err { msg, .. } => format!("{} :: {}", normalized(o), msg.lines().last().unwrap_or("").chars().take(100).collect::<String>()),
+        _ => normalized(o),
+    }
+}
+
 /// Compare two engines after a step; returns false on violation.
 fn same(res: &mut CaseResult, a: &mut Engine, b: &mut Engine, step: &str, oa: &str, ob: &str, what: &str) -> bool {
     if oa != ob {
@@ -59,6 +67,141 @@ fn same(res: &mut CaseResult, a: &mut Engine, b: &mut Engine, step: &str, oa: &s
     }
 }
 
+impl C08 {
+    /// Original and clone driven by two caller threads under the token
+    /// scheduler; each must behave exactly like a solo run of its own sequence.
+    fn check_clone_threads(&self, case: &Case) -> CaseResult {
+        use egglog_concurrency::verif;
+        let mut res = CaseResult::new();
+        let threads = case.threads() as usize;
+        let Some(ic) = case.ops.iter().position(|o| o == "(@clone)") else {
+            res.inconclusive("marker missing");
+            return res;
+        };
+        let Some(io) = case.ops.iter().position(|o| o == "(@other)") else {
+            res.inconclusive("marker missing");
+            return res;
+        };
+        if io < ic {
+            res.inconclusive("markers out of order");
+            return res;
+        }
+        let p: Vec<String> = case.ops[..ic].to_vec();
+        let sa: Vec<String> = case.ops[ic + 1..io].to_vec();
+        let sb: Vec<String> = case.ops[io + 1..].to_vec();
+        let fail_at: Vec<u64> = vec![];
+        // solo references (serial, outside the scheduler)
+        let solo = |seq: &Vec<String>| -> (Vec<String>, Option<(crate::dump::RawDb, crate::dump::Dump)>) {
+            let mut e = Engine::new(Mode::Plain, 1);
+            faults::install_flaky(&mut e.eg, faults::Flaky::new(fail_at.clone()));
+            for op in &p {
+                e.run(op);
+            }
+            let outs: Vec<String> = seq.iter().map(|op| with_msg(&e.run(op))).collect();
+            (outs, e.dump().ok())
+        };
+        let (ref_a, dump_a) = solo(&sa);
+        let (ref_b, dump_b) = solo(&sb);
+        if ref_a.iter().chain(ref_b.iter()).any(|o| o.starts_with("panic")) {
+            res.inconclusive("panic in a solo run (C09 territory)");
+            return res;
+        }
+        let mut got_a: Vec<String> = Vec::new();
+        let mut got_b: Vec<String> = Vec::new();
+        let mut fin_a = None;
+        let mut fin_b = None;
+        maybe_sim(case, &mut res, |_res| {
+            let mut orig = Engine::new(Mode::Plain, threads);
+            faults::install_flaky(&mut orig.eg, faults::Flaky::new(fail_at.clone()));
+            for op in &p {
+                orig.run(op);
+            }
+            let mut cl = orig.clone();
+            let sb2 = sb.clone();
+            let h = verif::spawn(move || {
+                let mut outs = Vec::new();
+                for op in &sb2 {
+                    outs.push(with_msg(&cl.run(op)));
+                    verif::yield_point(verif::site::USER);
+                }
+                let d = cl.dump().ok();
+                drop(cl);
+                (outs, d)
+            });
+            for op in &sa {
+                got_a.push(with_msg(&orig.run(op)));
+                verif::yield_point(verif::site::USER2);
+            }
+            fin_a = orig.dump().ok();
+            verif::sim_join(&h);
+            if let Ok((o, d)) = h.join() {
+                got_b = o;
+                fin_b = d;
+            }
+            drop(orig);
+        });
+        if matches!(res.verdict, crate::case::Verdict::HarnessError(_)) {
+            return res;
+        }
+        // name-indexed access broken by the other side's declarations (known finding of the serial variant)
+        for (what, d) in [("original-sees-clone-name-indexed-read", &fin_a), ("clone-sees-original-name-indexed-read", &fin_b)] {
+            if let Some((raw, _)) = d {
+                if let Some(p) = raw.problems.iter().find(|p| p.starts_with("name-indexed read")) {
+                    res.violation(what, format!("two caller threads: {p}"));
+                    return res;
+                }
+            }
+        }
+        let strip = |s: &String| s.split(" :: ").next().unwrap_or("").to_string();
+        // A command that fails at run time has no promised partial effect, and with
+        // several workers the set of actions applied before the failure depends on the
+        // schedule: a side is compared up to (and including) its first execution failure,
+        // and its final database only if it had none.
+        let first_exec_failure = |outs: &Vec<String>| outs.iter().position(|o| o.starts_with("err Backend"));
+        let fa = first_exec_failure(&ref_a);
+        let fb = first_exec_failure(&ref_b);
+        for (i, (w, g)) in ref_a.iter().zip(got_a.iter()).enumerate() {
+            if fa.map(|k| i > k).unwrap_or(false) {
+                break;
+            }
+            if strip(w) != strip(g) {
+                res.violation("original-sees-clone-outcome-threads", format!("{}: solo {w} concurrent {g}", sa[i]));
+                return res;
+            }
+        }
+        for (i, (w, g)) in ref_b.iter().zip(got_b.iter()).enumerate() {
+            if fb.map(|k| i > k).unwrap_or(false) {
+                break;
+            }
+            if strip(w) != strip(g) {
+                res.violation("clone-sees-original-outcome-threads", format!("{}: solo {w} concurrent {g}", sb[i]));
+                return res;
+            }
+        }
+        if got_a.len() != ref_a.len() || got_b.len() != ref_b.len() {
+            res.violation("caller-thread-died", format!("{} / {} commands completed", got_a.len(), got_b.len()));
+            return res;
+        }
+        for (what, want, got, failed) in [
+            ("original-sees-clone-dump-threads", &dump_a, &fin_a, fa.is_some()),
+            ("clone-sees-original-dump-threads", &dump_b, &fin_b, fb.is_some()),
+        ] {
+            if failed {
+                continue;
+            }
+            if let (Some((_, w)), Some((_, g))) = (want, got) {
+                if w.orphans == 0 && g.orphans == 0 && w.lines != g.lines {
+                    res.violation(what, format!("final databases differ: {}", w.first_diff(g)));
+                    return res;
+                }
+                res.state(g.hash());
+            }
+        }
+        res.nontrivial = sa.len() >= 3 && sb.len() >= 3 && res.counters.get("sched_decisions").copied().unwrap_or(0) >= 10;
+        res
+    }
+}
+
 impl Property for C08 {
     fn id(&self) -> &'static str {
         "C08"
@@ -78,11 +221,17 @@ impl Property for C08 {
             "registered schedulers across push/pop are exercised by C18".into(),
         ]
     }
+    fn isolation(&self, case: &Case) -> super::Isolation {
+        if case.threads() > 1 { super::Isolation::Fresh } else { super::Isolation::Shared }
+    }
     fn budget(&self, tier: Tier) -> Budget {
         match tier {
             Tier::Quick => Budget { cases: 8000, wall_s: 120 },
             Tier::Thorough => Budget { cases: 200_000, wall_s: 1800 },
         }
+    }
+    fn timeout_s(&self) -> u64 {
+        20
     }
     fn generate(&self, seed: u64, index: u64, _tier: Tier) -> Case {
         let mut case = Case::new("C08", seed);
@@ -94,7 +243,7 @@ impl Property for C08 {
         ops.extend(to_text(&g.gen_session()));
         if index % 3 == 2 {
             // clone isolation
-            case.cfg.insert("kind".into(), json!("clone"));
+            case.cfg.insert("kind".into(), json!(if index % 12 == 11 { "clone-threads" } else { "clone" }));
             let mut ga = g.clone();
             ga.rng = root.fork("A");
             let mut gb = g.clone();
@@ -103,9 +252,23 @@ impl Property for C08 {
             ops.extend(to_text(&ga.gen_extra_decls("A")));
             ops.extend(to_text(&ga.gen_session()));
             ops.push("(@other)".into());
-            ops.extend(to_text(&gb.gen_extra_decls("A"))); // same names on the other side
+            // same names on the other side (serial variant); the threaded variant uses
+            // different names so that the known registry finding does not mask others
+            ops.extend(to_text(&gb.gen_extra_decls(if index % 12 == 11 { "B" } else { "A" })));
             ops.extend(to_text(&gb.gen_session()));
             case.cfg.insert("interleave".into(), json!(cfg_rng.next() >> 1));
+            if index % 12 == 11 {
+                // two caller threads under the token scheduler, sharing the pool,
+                // the registry lock and the panic side channel
+                draw_threaded(&mut case, &mut cfg_rng);
+                // one side also fails now and then
+                let mut frng = root.fork("faults-b");
+                if frng.chance(1, 2) {
+                    let f_ops = faults::gen_f4(&mut gb);
+                    ops.extend(f_ops);
+                    ops.push(gb.gen_run().to_string());
+                }
+            }
         } else {
             case.cfg.insert("kind".into(), json!("pushpop"));
             let mut gq = g.clone();
@@ -169,6 +332,9 @@ impl Property for C08 {
             faults::install_flaky(&mut e.eg, faults::Flaky::new(fail_at.clone()));
             e
         };
+        if case.cfg_str("kind") == Some("clone-threads") {
+            return self.check_clone_threads(case);
+        }
         if case.cfg_str("kind") == Some("clone") {
             let Some(ic) = case.ops.iter().position(|o| o == "(@clone)") else {
                 res.inconclusive("marker missing");
